@@ -5,17 +5,9 @@ from common import freephil, enc, dec, call_j, word_j, classify_runtime
 
 LEVEL = "proof"
 MODULE = "Phil.Props.C12"
-LEVEL_TEXT = ("Lean theorems about the substitution model (fragment splitting, resolve_variables, lexical_get with document-order "
-              "ids, environment as a parameter): single-quoted words and words without '$' are returned untouched; a word that is "
-              "one unquoted variable takes the referenced words, any other mixture is one double-quoted word; objects at or after "
-              "the referencing definition never influence the result; the environment is consulted only when no earlier "
-              "definition exists; resolution terminates (structural recursion on a fuel bounded by the number of objects). "
-              "The model is tied to /repo by a correspondence run of resolve_variables on every definition of generated "
-              "documents x environments; the oracle checks the untouched/one-word clauses, the flat reference reading, and the "
-              "metamorphic clauses (delete everything later; change the environment under an earlier definition).")
-LEVEL_NOTE = ("os.environ is a parameter of the model; the harness installs the same table as os.environ while calling the "
-              "implementation. Dotted names without parentheses ($a.b) read as variable a followed by the text '.b', as coded.")
-TECHNIQUE = "Lean 4 theorems (frame property of lexical lookup, termination by fuel adequacy) + differential correspondence + metamorphic oracle"
+LEVEL_TEXT = "Lean theorems about the substitution model: the operational resolution equals a fuel-free denotational specification (nearest earlier definition, enclosing scopes outward, dotted and root-anchored names, last earlier match wins) for every environment, position and both modes on every parser output (resolveAt_eq_denote_parsed, parse_docIds, lexicalGet_eq_nearestEarlier); corollaries: later objects irrelevant, environment irrelevant when an earlier definition exists, single quotes and '$'-free words untouched, one unquoted variable takes the words / any mixture is one double-quoted word, resolution never runs out of fuel. Tied to /repo by a correspondence run of resolve_variables of every definition of generated documents x environments (one object per line and several per line, one-line scopes); the oracle reads 'earlier' from document positions of the generator's tree (not from primary ids) and evaluates the clauses on the implementation."
+LEVEL_NOTE = "os.environ is a parameter of the model. $a.b reads as variable a followed by '.b', as coded. Known edges on the unchanged tree (see DESIGN §7): triple-single-quoted text is substituted, disabled definitions serve as variable sources."
+TECHNIQUE = 'Lean 4 refinement of operational resolution to a denotational specification + differential correspondence + position-based reference oracle'
 RULE = ("documents of definitions and nested scopes (depth <= 3) whose words mix literals, $x, $(x), $(a.b), $(.a.b), \\$, all "
         "quote styles, references to scopes, later definitions, themselves and undefined names x environments that do or do not "
         "define the names x layouts (one object per line; statements sharing a physical line through ';', one-line scopes, "
